@@ -4,6 +4,7 @@
 -/
 import Pdlv.Lemmas.JavaChunk
 import Pdlv.Lemmas.JavaArrays
+import Pdlv.Lemmas.JavaSerChild
 import Pdlv.Thm.C03
 
 namespace Pdlv
@@ -51,81 +52,6 @@ theorem java_packs_groups_up_to_32_bits (c : Cfg) (nm : String) (items : Items) 
     simp only [hp]
     exact items_ref c.e items p v items bs hw h
 
-theorem scalars_ref (en : Endian) (w : Nat) : ∀ (vs : List Value) (bs : Bytes),
-    encListWith (encTy { e := en, mode := .ideal } (.scalar w)) vs = .ok bs → Java.encScalars en w vs = .ok bs
-  | [], bs, h => by simpa [encListWith, Java.encScalars] using h
-  | x :: r, bs, h => by
-    simp only [encListWith] at h
-    obtain ⟨a, ha, h2⟩ := bind_ok _ _ _ h
-    obtain ⟨b, hb, h3⟩ := bind_ok _ _ _ h2
-    cases x with
-    | int x =>
-      simp only [encTy, elemOutOfRange, decide_eq_true_eq] at ha
-      split at ha
-      · cases ha
-      · split at ha
-        · cases ha
-        · rename_i _ hm
-          have hlt : x < 2 ^ w := by
-            simp only [maskBits] at hm
-            have := Nat.two_pow_pos w
-            omega
-          simp only [Outcome.ok.injEq] at ha h3
-          simp only [Java.encScalars, if_neg (show ¬ x ≥ 2 ^ w by omega), scalars_ref en w r b hb, Outcome.bind, putGroup,
-            Nat.mod_eq_of_lt hlt, ha, h3]
-    | arr _ => simp [encTy] at ha
-    | obj _ => simp [encTy] at ha
-    | null => simp [encTy] at ha
-
-theorem items_refE (en : Endian) (all : Items) (p : Bytes) (v : Value) : ∀ (is : Items) (bs : Bytes),
-    encWfItems is = true → Pdlv.encItems { e := en, mode := .ideal } all (.ok p) p.length v is = .ok bs →
-      Java.encItems en all p v is = .ok bs
-  | .nil, bs, _, h => by simpa [Pdlv.encItems, Java.encItems] using h
-  | .cons i r, bs, hw, h => by
-    simp only [Pdlv.encItems] at h
-    obtain ⟨a, ha, h2⟩ := bind_ok _ _ _ h
-    obtain ⟨b, hb, h3⟩ := bind_ok _ _ _ h2
-    cases i with
-    | chunk fs =>
-      simp only [encWfItems, Bool.and_eq_true, decide_eq_true_eq] at hw
-      simp only [Pdlv.encItem, BEq.rfl] at ha
-      obtain ⟨X, hX, h4⟩ := bind_ok _ _ _ ha
-      simp only [Outcome.ok.injEq] at h4
-      simp only [Java.encItems, chunk_ref en all p.length v fs hw.1 X hX, Outcome.bind, items_refE en all p v r b hw.2 hb, h4]
-      exact h3
-    | typedef a b c => simp [encWfItems] at hw
-    | optional a b c d => simp [encWfItems] at hw
-    | payload m =>
-      simp only [encWfItems] at hw
-      simp only [Pdlv.encItem] at ha
-      cases ha
-      simp only [Java.encItems, Outcome.bind, items_refE en all p v r b hw hb]
-      exact h3
-    | array id elem ew shape pad =>
-      cases elem with
-      | scalar w =>
-        cases ew with
-        | static k =>
-          cases pad with
-          | none =>
-            simp only [encWfItems, Bool.and_eq_true, decide_eq_true_eq] at hw
-            simp only [Pdlv.encItem] at ha
-            obtain ⟨vs, hvs, h4⟩ := bind_ok _ _ _ ha
-            obtain ⟨u, hu, h5⟩ := bind_ok _ _ _ h4
-            obtain ⟨u2, _, h6⟩ := bind_ok _ _ _ h5
-            obtain ⟨es, hes, h7⟩ := bind_ok _ _ _ h6
-            simp only [padTo, Outcome.ok.injEq] at h7
-            have hg : ¬ (w % 8 ≠ 0 ∨ w = 0 ∨ w > 64) := by omega
-            simp only [Java.encItems, if_neg hg, hvs, hu, Outcome.bind, scalars_ref en w vs es hes,
-              items_refE en all p v r b hw.2 hb, h7]
-            exact h3
-          | some _ => simp [encWfItems] at hw
-        | dynamic => simp [encWfItems] at hw
-        | unknown => simp [encWfItems] at hw
-      | enumTy _ _ => simp [encWfItems] at hw
-      | struct _ _ => simp [encWfItems] at hw
-      | custom _ _ => simp [encWfItems] at hw
-
 /-- **C19, size and count fields, arrays, payloads (serializer).**  For every packet or struct without parent made of bit-field
     groups of at most 32 bits — size and count fields with their modifiers among them —, arrays of scalars of whole octets and
     payloads (`Java.encWfItems`: decidable, evaluated per run), both byte orders, and every value the reference assigns an
@@ -143,6 +69,25 @@ theorem java_writes_arrays_and_payloads (c : Cfg) (nm : String) (items : Items) 
   · rename_i p hp
     simp only [hp]
     exact items_refE c.e items p v items bs hw h
+
+/-- **C19, serializer of child classes.**  For every child packet whose own fields and whose ancestors' fields are in the
+    serializer class, with one payload per ancestor and static annotations that agree with the types (`Java.encWfChild`:
+    decidable, evaluated per run), both byte orders, and every value the reference-mode encoder assigns an encoding to: the
+    model of the emitted `toBytes()` — own fields into a buffer, then `super.toBytes(buf)` per ancestor, every payload size
+    field computed from `payload.limit()`, constrained members holding the constants of the child's builder — writes exactly
+    the reference's bytes. -/
+theorem java_child_serializer_writes_reference (c : Cfg) (nm : String) (parent : Body) (cs allCs : List (String × Nat))
+    (items : Items) (hw : encWfChild (.derived nm parent cs allCs items) = true) (v : Value) (bs : Bytes)
+    (he : Pdlv.encBody { e := c.e, mode := .ideal } (.derived nm parent cs allCs items) v = .ok bs) :
+    Java.encBody c (.derived nm parent cs allCs items) v = .ok bs :=
+  child_ideal_to_java c nm parent cs allCs items hw v bs he
+
+/-! non-vacuity: `packet R { k: 8, _size_(_payload_): 8, _payload_ }`, `packet C : R (k = 2) { y: 16 }` -/
+example :
+    let root : Body := .root "R" (.cons (.chunk [.scalar "k" 8, .size "_payload_" 8 0]) (.cons (.payload (.sized 0)) .nil))
+    let ch : Body := .derived "C" root [("k", 2)] [("k", 2)] (.cons (.chunk [.scalar "y" 16]) .nil)
+    encWfChild ch = true ∧ Java.encBody { e := .little } ch (.obj [("y", .int 0x1234)]) = .ok [2, 2, 0x34, 0x12] := by
+  refine ⟨by decide, by rfl⟩
 
 /-- **C19, bit-field groups, parser side.**  For every packet or struct without parent made of bit-fields in groups of
     exactly 8, 16 or 32 bits (`Java.decWfItems`), both byte orders and EVERY byte string: the model of the emitted
